@@ -1,7 +1,8 @@
 import LK.Model.KNN
 import LK.Model.ArrayOps
+import LK.Model.ArrowOps
 /-!
-# C09 — the torch operations `_sim_row` (knn/item.py) is written in (core Lean only)
+# C09 — the torch operations `_sim_row`, `_sim_block` and `_sim_blocks` (knn/item.py) are written in (core Lean only)
 
 `translate/py2lean_sim.py` turns the statements of `_sim_row` into these combinators one by one (`LK.Gen.SimC09.simRowT`);
 `LK/Proofs/SimC09.lean` proves the result equal to the model's `simRowTrunc`, about which the C09 theorems are stated.
@@ -30,5 +31,13 @@ def takeIdx {α} (xs : List α) (d : α) (idx : List Nat) : List α := idx.map (
 def argsort (xs : List Nat) : List Nat := (sortBy (fun (a b : Nat × Nat) => decide (a.2 ≤ b.2)) (enum xs)).map (·.1)
 /-- `torch.clamp(x, lo, hi)` -/
 def clamp (xs : List Q) (lo hi : Q) : List Q := xs.map (fun x => if x < lo then lo else if hi < x then hi else x)
+/-- `range(start, stop, step)` with a positive step, counted out with `fuel` (`stop` elements always suffice) -/
+def pyRangeStep (stop step : Nat) : Nat → Nat → List Nat
+  | 0, _ => []
+  | fuel + 1, start => if start < stop then start :: pyRangeStep stop step fuel (start + step) else []
+/-- `range(start, stop)` -/
+def pyRange (start stop : Nat) : List Nat := List.range' start (stop - start)
+/-- `torch.cumsum(x, 0)` -/
+def cumsum (xs : List Nat) : List Nat := LK.ArrowOps.cumsum xs
 
 end LK.TorchOps
